@@ -2,13 +2,22 @@
 """Run the repository's own suite (guard OFF) and compare with /root/.vp/BASELINE.json stable_pass.
 usage: baseline_cmp.py [-n N]   exit 0 iff every stable_pass test passes."""
 import json, subprocess, sys, tempfile, os, xml.etree.ElementTree as ET
-n = sys.argv[2] if len(sys.argv) > 2 and sys.argv[1] == "-n" else "12"
+n = "12"
+repo = "/repo"
+a = sys.argv[1:]
+while a:
+    if a[0] == "-n":
+        n = a[1]; a = a[2:]
+    elif a[0] == "--repo":
+        repo = a[1]; a = a[2:]
+    else:
+        a = a[1:]
 base = json.load(open("/root/.vp/BASELINE.json"))
 with tempfile.TemporaryDirectory() as td:
     junit = os.path.join(td, "j.xml")
-    env = dict(os.environ); env.pop("SUIT_GENERATOR_VERIF", None)
+    env = dict(os.environ); env.pop("SUIT_GENERATOR_VERIF", None); env["PYTHONPATH"] = repo
     subprocess.run(["/venv/bin/python", "-m", "pytest", "-q", "-p", "no:cacheprovider", "--timeout=900",
-                    "--continue-on-collection-errors", "-n", n, f"--junitxml={junit}"], cwd="/repo", env=env,
+                    "--continue-on-collection-errors", "-n", n, f"--junitxml={junit}"], cwd=repo, env=env,
                    stdout=subprocess.DEVNULL, stderr=subprocess.DEVNULL)
     root = ET.parse(junit).getroot()
 res = {}
